@@ -19,7 +19,17 @@ type Bounds struct{ Str, Slice, Map, Depth int }
 var (
 	smallB = Bounds{Str: 1, Slice: 1, Map: 1, Depth: 2}
 	bigB   = Bounds{Str: 2, Slice: 2, Map: 2, Depth: 3}
+	midB   = Bounds{Str: 1, Slice: 2, Map: 2, Depth: 2} // and integers restricted to one-byte varints
 )
+
+// big: the bounds of the thorough tier — bigB, or midB when the engine retries
+// a variant that did not fit its budget at bigB (vrt.Mid).
+func big() Bounds {
+	if vrt.Mid() {
+		return midB
+	}
+	return bigB
+}
 
 var B = smallB
 
@@ -36,7 +46,7 @@ var structDepth int
 func setBounds() {
 	Focus = -1
 	if vrt.Thorough() {
-		B = bigB
+		B = big()
 	} else {
 		B = smallB
 	}
@@ -53,12 +63,13 @@ func setBoundsFocus(nf int) {
 		return
 	}
 	if nf == 1 {
-		B = bigB
+		B = big()
+		NonFocus = vrt.Mid()
 		vrt.Variant(1)
 		return
 	}
 	Focus = vrt.Variant(nf)
-	B.Depth = bigB.Depth
+	B.Depth = big().Depth
 }
 
 // NonFocus is set while a field other than the focus field is being filled:
@@ -75,8 +86,8 @@ func focusField(i int) {
 	}
 	d := B.Depth
 	if i == Focus {
-		B = bigB
-		NonFocus = false
+		B = big()
+		NonFocus = vrt.Mid() // intermediate bounds: more elements, one-byte integers
 	} else {
 		B = smallB
 		NonFocus = true
